@@ -487,6 +487,67 @@ def gpsd_session(col, binpath, vmon, rng, tag, scratch):
         sess.close()
 
 
+def crowd_expiry_session(col, binpath, rng, tag, scratch):
+    """More aircraft than rows, the selection at the bottom of the list, then most of them expire:
+    the few that are still heard must all be shown."""
+    lat, lon = 52.0, 4.0
+    FT = 4
+    n, keep = 30, 5
+    addrs = [0xA00001 + k for k in range(n)]
+    first = []
+    for k, a in enumerate(addrs):
+        la, lo = enc.destination(lat, lon, 12.0 * k, 20.0 + k)
+        first.append(enc.line(enc.long_frame(17, 5, a, enc.me_ident(4, 0, "EXP%03d" % k))))
+        first.append(enc.line(enc.long_frame(17, 5, a, enc.me_airpos(11, 30000, la, lo, False))))
+        first.append(enc.line(enc.long_frame(17, 5, a, enc.me_airpos(11, 30000, la, lo, True))))
+    alive = lambda t: b"".join(enc.line(enc.long_frame(17, 5, a, enc.me_unique(0, 7000 + 10 * t + j))) for j, a in enumerate(addrs[:keep]))
+    plan = [("send", b"".join(first)), ("mark", "feed_done"), ("wait_for", "keep")]
+    for t in range(40):
+        plan += [("send", alive(t)), ("sleep", 0.5)]
+    opts = ["--filter-time", str(FT)]
+    sess = session.RadarSession(binpath, plan, lat=lat, lon=lon, opts=opts, rows=20, cols=120, scratch=scratch)
+    inp = {"scenario": "30 aircraft on a 20-row terminal, selection moved to the last row, 25 expire", "options": opts, "tag": tag}
+    try:
+        sess.wait_connected()
+        sess.key("F3")
+        end = time.monotonic() + 40
+        while time.monotonic() < end and sess.tab_title_count() != n:
+            sess.p.pump(0.1)
+            if not sess.p.alive():
+                raise Inconclusive("radar gone")
+        if sess.tab_title_count() != n:
+            raise Inconclusive("not all aircraft shown before the threshold")
+        sess.srv.release("keep")
+        for _ in range(n + 4):
+            sess.key("Down")
+            sess.p.pump(0.01)
+        end = time.monotonic() + FT + 25
+        while time.monotonic() < end and sess.tab_title_count() != keep:
+            sess.p.pump(0.2)
+            if not sess.p.alive():
+                raise Inconclusive("radar gone")
+        col.count("crowd_expiry_sessions")
+        col.cls("crowd|expiry")
+        if sess.tab_title_count() != keep:
+            raise Inconclusive("the silent aircraft did not expire in time")
+        sess.p.settle(0.5, 4.0)
+        rows = sess.airplanes_rows()
+        if rows is None:
+            raise Inconclusive("Airplanes table not on screen")
+        got = sorted(r["icao"] for r in rows)
+        want = sorted("%06x" % a for a in addrs[:keep])
+        col.count("rows_compared", keep)
+        if got != want:
+            col.add("C18", "C18|airplanes_tab_differs_from_tracker|crowd_expiry|set", f"the title counts {keep} aircraft (25 of 30 expired while the selection was on the last row); rows shown: {got}, still heard: {want}", inp)
+    except Inconclusive:
+        if sess.p.alive():
+            raise
+        col.add("C17", f"C17|terminated_before_quit|{sess.panic_location()}", "radar died during a C18 session", inp)
+        col.add("C18", f"C18|radar_died_while_showing_data|{sess.panic_location()}", "radar terminated during a session: nothing is shown any more", inp)
+    finally:
+        sess.close()
+
+
 def stats_expiry_session(col, binpath, rng, tag, scratch):
     """Aircraft expire and come back: Total counts every (re-)add, Most the largest simultaneous count.
     Event driven (title counts), so a slow machine only makes it slower."""
@@ -823,6 +884,21 @@ def map_session(col, binpath, rng, tag, scratch):
         _, _, blue2 = measure()
         if blue2 != sorted(blue):
             col.add("C18", "C18|map_reset_does_not_restore_view", f"aircraft cells after zooming and reset {blue2[:8]} differ from before {sorted(blue)[:8]}", inp2)
+        # Enter on a row of the Airplanes tab centres the map on that aircraft: the title names its
+        # position as the (custom) centre, so its dot belongs in the middle of the canvas
+        sess.key("F3")
+        sess.settle(0.4)
+        for _ in range(1 + idx % 5):
+            sess.key("Down")
+            sess.p.pump(0.05)
+        sess.key("Enter")
+        sess.settle(0.6)
+        t = centre_in_title()
+        col.count("centre_on_aircraft_checks")
+        if t is not None and any("┌Map" in l for l in sess.p.screen.text()) and any("CUSTOM" in l for l in sess.p.screen.text()[:3]):
+            now = blue_now()
+            if not any(abs(r - cr) <= 1 and abs(c - cc) <= 1 for r, c in now):
+                col.add("C18", "C18|map_not_centred_on_selected_aircraft", f"Enter on a row of the Airplanes tab: the title gives {t} (CUSTOM) as the centre of the view, but no aircraft is drawn at the centre of the canvas (row {cr}, column {cc}); aircraft cells {now[:10]}", inp2)
     except Inconclusive:
         # a session that cannot be completed because radar is gone is a finding, not a shrug
         if sess.p.alive():
@@ -847,13 +923,15 @@ def main(a, lcol, col, run_all, scratch, START):
     # long sessions first (they take the longest): 4-digit counts in the quick tier, 5-digit in thorough
     for i, n_msgs in enumerate([1003 + 7 * (a.seed % 50), 10_007 + 11 * (a.seed % 50)] if thorough else [1003 + 7 * (a.seed % 50)]):
         jobs.insert(0, (f"long#{i}", lambda rng, i=i, n_msgs=n_msgs: long_count_session(lcol, a.bin, a.vmon, rng, f"long#{i}", scratch, n_msgs)))
+    for i in range(6 if thorough else 1):
+        jobs.append((f"crowdexp#{i}", lambda rng, i=i: crowd_expiry_session(lcol, a.bin, rng, f"crowdexp#{i}", scratch)))
     for i in range(24 if thorough else 2):
         jobs.append((f"gpsd#{i}", lambda rng, i=i: gpsd_session(lcol, a.bin, a.vmon, rng, f"gpsd#{i}", scratch)))
     for i in range(12 if thorough else 2):
         jobs.insert(0, (f"crowd#{i}", lambda rng, i=i: crowd_session(lcol, a.bin, a.vmon, rng, f"crowd#{i}", scratch)))
     run_all(jobs)
     ev = col.counters.get("rows_compared", 0) + col.counters.get("stats_compared", 0) + col.counters.get("view_control_sequences", 0) + col.counters.get("map_sessions", 0) * 8 + col.counters.get("expiry_sessions", 0)
-    distinct = col.counters.get("data_sessions", 0) + col.counters.get("long_count_sessions", 0) + col.counters.get("crowd_sessions", 0) + col.counters.get("gpsd_sessions", 0) + col.counters.get("map_sessions", 0) + col.counters.get("expiry_sessions", 0)
+    distinct = col.counters.get("data_sessions", 0) + col.counters.get("long_count_sessions", 0) + col.counters.get("crowd_sessions", 0) + col.counters.get("crowd_expiry_sessions", 0) + col.counters.get("gpsd_sessions", 0) + col.counters.get("map_sessions", 0) + col.counters.get("expiry_sessions", 0)
     col.sample({"data_session": "20 aircraft in four quadrants with identification/velocity/position (some one parity only); all 10 columns of every Airplanes row == library run on the same lines; tab title; Stats totals; 1-40 view-control events then rows unchanged"})
     col.sample({"map_session": "8 aircraft due N/E/S/W at d and 2d km; blue braille cells relative to the axis crossing: direction, 2:1 proportion, E/W and N/S symmetry, receiver at the canvas centre, the same picture scaled after three zoom-outs and after five zoom-ins, reset restores the cells"})
     return vlib.finish(col, "C18", a.tier, a.seed, "exploration",
